@@ -43,8 +43,20 @@ def rows(a):
     return [tuple(np.atleast_1d(r).ravel().tolist()) for r in a]
 
 
-def trace(kind, n, b, calls, seed, method="uniform"):
+def trace(kind, n, b, calls, seed, method="uniform", mode="eager64"):
+    """mode jit32: the library's default precision, every draw through jax.jit (the cursor is then a traced int32)"""
+    jax, jnp, np, eqx, jinns = jx()
+    if mode == "jit32":
+        with jax.enable_x64(False):
+            return _trace(kind, n, b, calls, seed, method, jit=True)
+    return _trace(kind, n, b, calls, seed, method, jit=False)
+
+
+def _trace(kind, n, b, calls, seed, method, jit):
+    jax, jnp, np, eqx, jinns = jx()
     g, store_of, draw = make_gen(kind, n, b, seed, method)
+    if jit:
+        draw = jax.jit(draw)
     s0 = rows(store_of(g))
     ident = {r: i for i, r in enumerate(s0)}
     distinct = len(ident) == len(s0)
@@ -66,7 +78,7 @@ def trace(kind, n, b, calls, seed, method="uniform"):
         batches.append(bt_ids)
         reshuffled.append((changed, cur_ids))
         prev = cur
-    return dict(kind=kind, n=n, b=b, calls=calls, seed=seed, method=method, distinct=distinct,
+    return dict(kind=kind, n=n, b=b, calls=calls, seed=seed, method=method, mode="jit32" if jit else "eager64", distinct=distinct,
                 batches=batches, stores=[c for _, c in reshuffled], changed=[c for c, _ in reshuffled])
 
 
@@ -132,11 +144,13 @@ def generate(tier, seed, casedir, variant):
         e = -(-n // b)
         calls = 3 * e + 1
         method = "grid" if (kind in ("ode_t", "pde_t", "param") and rng.random() < 0.3) else "uniform"
-        tr = trace(kind, n, b, calls, rng.randrange(1 << 30), method)
+        mode = "jit32" if cid % 3 == 2 else "eager64"
+        tr = trace(kind, n, b, calls, rng.randrange(1 << 30), method, mode)
         if not tr["distinct"]:
             continue
         cases.append(case_term(cid, tr))
-        meta[cid] = {k: tr[k] for k in ("kind", "n", "b", "calls", "seed", "method")}
+        meta[cid] = {k: tr[k] for k in ("kind", "n", "b", "calls", "seed", "method", "mode")}
+        dist[tr["mode"]] = dist.get(tr["mode"], 0) + 1
         for f in oracle(tr):
             viol.append({"detail": f, "case": dict(meta[cid], batches=tr["batches"])})
         dist[kind] = dist.get(kind, 0) + 1
@@ -147,13 +161,13 @@ def generate(tier, seed, casedir, variant):
             samples.append(dict(meta[cid], batches=tr["batches"][:6]))
     write_cases(casedir, "C09", "R_C09", variant, cases)
     return dict(meta=meta, oracle_violations=viol, evaluations=len(cases), distinct_nontrivial=len(nontrivial),
-                rule="(generator kind, n, b) with n <= 8, b <= n, history of 3 epochs + 1 calls; non-trivial = at least two batches per epoch; distinct = distinct (kind, n, b)",
+                rule="(generator kind, n, b) with n <= 8, b <= n, history of 3 epochs + 1 calls, a third of the histories drawn under jax.jit in the library's default 32-bit mode; non-trivial = at least two batches per epoch; distinct = distinct (kind, n, b)",
                 samples=samples, distribution=dist, oracle_checks=len(cases), exhaustive=(tier == "thorough"))
 
 
 def replay(rep, casedir, variant):
     c = rep["case"]
-    tr = trace(c["kind"], c["n"], c["b"], c["calls"], c["seed"], c.get("method", "uniform"))
+    tr = trace(c["kind"], c["n"], c["b"], c["calls"], c["seed"], c.get("method", "uniform"), c.get("mode", "eager64"))
     viol = [{"detail": f, "case": dict(c, batches=tr["batches"])} for f in oracle(tr)]
     write_cases(casedir, "C09", "R_C09", variant, [case_term(0, tr)])
     return dict(meta={0: c}, oracle_violations=viol, evaluations=1, distinct_nontrivial=1, rule="replay", samples=[c])
